@@ -351,6 +351,49 @@ def wfCheck (fs : FS) : Bool :=
 `C17.inv_step`) -/
 def wfNodes (fs : FS) : Bool := (walk fs).all fun w => nodeOK (fs.node w.2)
 
+/-! ## the layer's bodies against the FS interface
+
+What `ReadFile(path)` and `Stat(path).Size()` of the file system the layer was written from deliver for the path
+of a regular entry.  The property's "extracting the layer yields the file system that was built" includes: the
+header's size is the size `Stat` reports, the body is what `ReadFile` returns, and the two agree. -/
+
+structure Readback where
+  path : List Name
+  /-- `Stat(path).Size()` -/
+  statSize : Nat
+  /-- `ReadFile(path)` (as a content key in the driver) -/
+  content : Text
+  /-- `len(ReadFile(path))` -/
+  readLen : Nat
+  deriving DecidableEq, Repr, Inhabited
+
+inductive RbErr
+  | missing (p : List Name)        -- the interface cannot read a file the layer contains
+  | size (p : List Name)           -- header size ≠ Stat size
+  | content (p : List Name)        -- body ≠ ReadFile
+  | statVsRead (p : List Name)     -- Stat size ≠ number of bytes ReadFile returns
+  deriving DecidableEq, Repr
+
+/-- judge one regular entry -/
+def readbackEntry (rbs : List Readback) (e : Entry) : Option RbErr :=
+  match rbs.find? (fun r => r.path = e.path) with
+  | none => some (.missing e.path)
+  | some r =>
+    if e.size ≠ r.statSize then some (.size e.path)
+    else if e.content ≠ r.content then some (.content e.path)
+    else if r.statSize ≠ r.readLen then some (.statVsRead e.path)
+    else none
+
+/-- the first regular entry of the layer that is not what the interface reads -/
+def readbackCheck (es : List Entry) (rbs : List Readback) : Option RbErr :=
+  (es.filter (·.kind = .reg)).findSome? (readbackEntry rbs)
+
+/-- what the interface of the model delivers for the walk path `p ↦ i`: `Stat` reports `effectiveSize`,
+`ReadFile` the bytes of `fileData` -/
+def readbackOf (b : Backend) (fs : FS) (w : List Name × Ino) : Readback :=
+  let n := fs.node w.2
+  { path := w.1, statSize := effectiveSize (Cfg.impl b) n, content := fileData b n, readLen := (fileData b n).length }
+
 /-! ## order -/
 
 /-- paths strictly increase in `fs.WalkDir`'s component-wise order -/
